@@ -13,6 +13,55 @@ from props import c04
 LEVEL = "model_checking"
 MUTS = ["shorter", "empty", "longer", "nullshard", "allnull", "nullmap", "shardno", "foreign",
         "cache_not_list", "shard_not_object", "templates_not_object", "entry_null", "toplevel_list", "deep_garbage"]
+# hand edits / single-digit corruptions inside the templates of an otherwise valid document: the result is a valid
+# document of the right shape whose templates are not the saved ones - judged for "loads, never crashes, usable"
+EDITS = ["fieldcount_low", "fieldcount_zero", "fieldcount_high", "scopecount_high", "scopecount_swap", "speclen_zero", "speclen_big",
+         "specs_null", "specs_empty", "element_unknown", "tid_other", "addr_short", "addr_empty", "key_moved", "timestamp_big"]
+
+
+def edit_doc(doc, name, rng):
+    d = copy.deepcopy(doc)
+    for si, sh in enumerate(d["Cache"]):
+        t = sh["Templates"] or {}
+        for k in list(t):
+            e = t[k]
+            tr = e["Template"]
+            if name == "fieldcount_low":
+                tr["FieldCount"] = max(0, tr["FieldCount"] - 1)
+            elif name == "fieldcount_zero":
+                tr["FieldCount"] = 0
+            elif name == "fieldcount_high":
+                tr["FieldCount"] = tr["FieldCount"] + rng.choice([1, 3, 60000])
+            elif name == "scopecount_high":
+                tr["ScopeFieldCount"] = tr["ScopeFieldCount"] + rng.choice([1, 2, 65000])
+            elif name == "scopecount_swap":
+                tr["FieldSpecifiers"], tr["ScopeFieldSpecifiers"] = tr["ScopeFieldSpecifiers"], tr["FieldSpecifiers"]
+            elif name == "speclen_zero":
+                for f in (tr["FieldSpecifiers"] or []) + (tr["ScopeFieldSpecifiers"] or []):
+                    f["Length"] = 0
+            elif name == "speclen_big":
+                for f in (tr["FieldSpecifiers"] or [])[:1]:
+                    f["Length"] = rng.choice([65535, 65534, 1500, 9])
+            elif name == "specs_null":
+                tr["FieldSpecifiers"] = None
+            elif name == "specs_empty":
+                tr["FieldSpecifiers"] = []
+                tr["ScopeFieldSpecifiers"] = []
+            elif name == "element_unknown":
+                for f in (tr["FieldSpecifiers"] or []):
+                    f["ElementID"] = 60000
+            elif name == "tid_other":
+                tr["TemplateID"] = (tr["TemplateID"] + 1) & 0xffff
+            elif name == "addr_short":
+                e["Addr"] = "CgAA"          # 3 octets
+            elif name == "addr_empty":
+                e["Addr"] = ""
+            elif name == "key_moved":
+                del t[k]
+                t[str((int(k) + 7) & 0xffffffff)] = e
+            elif name == "timestamp_big":
+                e["Timestamp"] = 2 ** 62
+    return d
 
 
 def mutate_doc(doc, name, rng):
@@ -71,10 +120,10 @@ def check(ctx):
     ctx.rule = ("model: TLC explores Dump as marshal / truncate / partial writes / completion with a crash-and-restart and a structural "
                 "corruption possible between any two steps (CachePersist.tla: Usable, RoundTrip, LoadTotal, CrashSafe; the as-built "
                 "loader that compares only ShardNo must be refuted). Code, for IPFIX and NetFlow v9: a cache filled through the real "
-                "decode path (12 probed exporter/id keys in IPv4, IPv4-mapped and IPv6 form + seeded full-range templates) is saved "
+                "decode path (12 probed exporter/id keys in IPv4, IPv4-mapped and IPv6 form, 2 x 4 keys of exporters whose cache keys collide, options templates, seeded full-range templates) is saved "
                 "with the real Dump; then (1) loaded back and every key re-asked by decoding a data set: same answers; (2) EVERY "
                 "prefix length of the real file (quick: all for IPFIX / every 3rd for v9) is loaded with the real GetCache; (3) 14 "
-                "structural corruptions of the JSON document; (4) seeded byte flips; (5) absent / empty / directory paths. After "
+                "structural corruptions of the JSON document and 15 hand edits inside its templates (counts, lengths, ids, addresses, keys); (4) seeded byte flips; (5) absent / empty / directory paths. After "
                 "every load the cache must answer every probe with 'unknown' or the saved template, never crash, and accept an "
                 "announcement + data in each of the 32 shards. One evaluation = one load; non-trivial = the file is not the intact one.")
     ctx.assumptions += ["a flipped octet that yields another valid document is judged only for 'no crash + usable' (the format has no checksum and the property asks for none)"]
@@ -94,6 +143,16 @@ def check(ctx):
                 v = 1 + (ei + ii) % 2
                 ann.append({"exp": e, "buf": c04.tpl_msg(proto, tid, v)})
                 probes.append(({"exp": e, "buf": c04.data_msg(proto, tid)}, v))
+        # pairs whose 32-bit FNV keys collide (the second of each pair lives under key+1, which selects the next shard), in
+        # 4-octet and 16-octet form, and options templates that differ in their scope field only
+        for alen in (4, 16):
+            ce = fnv.find_exporters(ctx.rng, alen)
+            for e, tid, v in ((ce["ea"], 257, 1), (ce["eb"], 257, 2), (ce["ea"], 256, 2), (ce["ec"], 257, 1)):
+                ann.append({"exp": e, "buf": c04.tpl_msg(proto, tid, v)})
+                probes.append(({"exp": e, "buf": c04.data_msg(proto, tid)}, v))
+        for k, v in enumerate((3, 4, 5)):
+            ann.append({"exp": exps[k % len(exps)], "buf": c04.tpl_msg(proto, 2000 + k, v)})
+            probes.append(({"exp": exps[k % len(exps)], "buf": c04.data_msg(proto, 2000 + k)}, v))
         g = gen_flow.Gen(ctx.rng, proto)
         extra = [{"exp": [172, 16, 0, 8], "buf": m} for m in g.history(6)] + [{"exp": [172, 16, 0, 9], "buf": m} for m in g.history(6)]
         # usable: announce + data in each of the 32 shards
@@ -124,6 +183,8 @@ def check(ctx):
         for mname in MUTS:
             for rep in range(2 if mname in ("nullshard", "nullmap") else 1):
                 loads.append(("mutation:" + mname, json.dumps(mutate_doc(doc, mname, ctx.rng)).encode(), "any"))
+        for ename in EDITS:
+            loads.append(("edit:" + ename, json.dumps(edit_doc(doc, ename, ctx.rng)).encode(), "nocrash"))
         for i in range(400 if thorough else 60):
             b = bytearray(raw)
             for _ in range(ctx.rng.choice([1, 1, 2, 8])):
